@@ -87,7 +87,14 @@ pub fn run(seed: u64) -> String {
                 let mut conn = sb.handshake::<_, Bytes>(sio).await.map_err(|e| format!("server hs {:?}", e))?;
                 let mut tasks = vec![];
                 while let Some(r) = conn.accept().await {
-                    let (req, mut resp) = r.map_err(|e| format!("accept {:?}", e))?;
+                    // (once the client is through and has closed, whatever the server still wanted to write — a
+                    //  WINDOW_UPDATE, an acknowledgement — meets a broken pipe: the end of the run, not a failure; an
+                    //  I/O failure in mid-exchange shows on the client's side)
+                    let (req, mut resp) = match r {
+                        Ok(x) => x,
+                        Err(e) if e.is_io() => break,
+                        Err(e) => return Err(format!("accept {:?}", e)),
+                    };
                     let k: usize = req.uri().path().trim_start_matches("/r").parse().unwrap_or(0);
                     let (up, down) = sizes_s[k];
                     let body = req.into_body();
